@@ -100,7 +100,36 @@ def model_class():
             # (nothing runs between here and collect_agent_statistics)
             self._snaps[time] = [(TYPES.index(a.agent_type), STATES.index(a.state),
                                   [(n, v["type"], v["value"]) for n, v in a.properties.items()]) for a in self.agents]
+            # wave 9b: the operation log comes from overridden public methods; code that reaches the same population another way
+            # (delete_agent no longer calling delete_agents, create_agents building agents itself, …) would leave it incomplete.
+            # It is therefore replayed here; when it does not lead to the actual end-of-step population it is replaced by
+            # "everybody gone, then everybody as they are now" — the instrumentation must never be the reason for a disagreement
+            end = [(a.id,) + self._snap_agent(a) for a in self.agents]
+            if canon_ipop(apply_ops(self._start[time], self._ops[time])) != canon_ipop(end):
+                self._ops[time] = [("X",)] + [("C",) + e for e in end]
+                self._oplog_fallbacks = getattr(self, "_oplog_fallbacks", 0) + 1
     return M
+
+
+def apply_ops(start, ops):
+    """Python replay of an operation log on a population [(id, ty, st, [(name, type, value)…])…] (same semantics as Core.applyOp)"""
+    pop = [(i, ty, st, list(es)) for i, ty, st, es in start]
+    for op in ops:
+        if op[0] == "D":
+            pop = [a for a in pop if a[0] not in op[1]]
+        elif op[0] == "C":
+            pop.append((op[1], op[2], op[3], list(op[4])))
+        elif op[0] == "S":
+            pop = [(i, ty, op[2] if i == op[1] else st, es) for i, ty, st, es in pop]
+        elif op[0] == "V":
+            pop = [(i, ty, st, [(n, tp, op[3] if (i == op[1] and n == op[2]) else v) for n, tp, v in es]) for i, ty, st, es in pop]
+        else:
+            pop = []
+    return pop
+
+
+def canon_ipop(pop):
+    return [(i, ty, st, [(n, tp, fbits(v) if tp in ("Integer", "Double") else v) for n, tp, v in es]) for i, ty, st, es in pop]
 
 
 def props_dict(vals):
@@ -1151,7 +1180,7 @@ def run(chk):
     req, real_lines, owner = [], [], []
     first = None
     dist = {"cases": 0, "edge_cases": {k: 0 for k in EDGE_KINDS}, "zero_first_groups": 0, "all_equal_groups": 0, "single_agent_groups": 0,
-            "mixed_type_groups": 0, "midstep_cases": 0, "midstep_ops": 0, "step_ops_replayed": 0, "times": 0, "agents_seen": 0, "groups_with_4_distinct_numbers": 0, "inhomogeneous_groups": 0, "empty_population_times": 0}
+            "mixed_type_groups": 0, "midstep_cases": 0, "midstep_ops": 0, "step_ops_replayed": 0, "oplog_fallbacks": 0, "times": 0, "agents_seen": 0, "groups_with_4_distinct_numbers": 0, "inhomogeneous_groups": 0, "empty_population_times": 0}
     order_dep = None
     for ci, case in enumerate(cases):
         m = new_model(case)
@@ -1194,6 +1223,7 @@ def run(chk):
                             dist["groups_with_4_distinct_numbers"] += 1
                             nontriv = True
         dist["cases"] += 1
+        dist["oplog_fallbacks"] += getattr(m, "_oplog_fallbacks", 0)
         if case.get("edge"):
             dist["edge_cases"][case["edge"]] += 1
             nontriv = True
